@@ -226,7 +226,7 @@ def run(ctx):
     specs = domain.pop('specs')
     sizes = {k: len(v) for k, v in domain.items()}
     rng = random.Random(ctx.seed * 7919 + 15)
-    extra = random_values(rng, 120 if ctx.quick else 900, specs)
+    extra = random_values(rng, 120 if ctx.quick else 6000, specs)
     values = {k: _dedup(list(domain[k]) + extra[k]) for k in domain}
     src = {k: len(domain[k]) for k in domain}
     ctx.log('domain: %s enumerated by TLC, %s with random values' % (
